@@ -48,10 +48,15 @@ ANCHORS = [
 ]
 H_UNITS = ['kcal/mol', 'kJ/mol', 'J/mol', 'cal/mol', 'eV/molecule',
            'MJ/kmol', 'J/mmol', 'mJ/umol', 'kJ/kmol', 'erg/umol',
-           'kW h/kmol', 'N m/mol']
+           'kW h/kmol', 'N m/mol',
+           # every SI prefix the units table knows, on the joule
+           'aJ/molecule', 'daJ/mol', 'hJ/mol', 'dJ/mmol', 'cJ/mmol',
+           'uJ/nmol', 'nJ/nmol', 'pJ/pmol', 'fJ/molecule', 'GJ/Mmol',
+           'TJ/Gmol', 'dacal/mol', 'hcal/mol']
 S_UNITS = ['cal/(mol*K)', 'J/(mol K)', 'kJ/(mol K)', 'J/mol/K', 'cal/mol/K',
            'eV/(molecule K)', 'mJ/(mmol K)', 'kcal/(kmol*K)', 'J/(mol*mK)',
-           'kJ/(kmol K)']
+           'kJ/(kmol K)', 'daJ/(mol K)', 'aJ/(molecule K)', 'hJ/(mol hK)',
+           'dJ/(mol dK)', 'cJ/(mmol K)', 'dacal/(mol daK)']
 T_UNITS = [('K', 1.0), ('mK', 1e-3), ('kK', 1e3), ('cK', 1e-2)]
 BLOCKS = [
     {'molar enthalpy': 'kcal/mol', 'molar entropy': 'cal/(mol*K)',
